@@ -101,6 +101,7 @@ theorem verify_eq_spec (sha256 : Bytes → Bytes) (msg pk sig : Bytes)
     · simp only [if_neg hc]
       split <;> (rename_i heq; rw [heq])
 
+/-- … wrong lengths are refused by an exception … -/
 theorem verify_rejects_lengths (sha256 : Bytes → Bytes) (msg pk sig : Bytes)
     (h : msg.length ≠ 32 ∨ pk.length ≠ 32 ∨ sig.length ≠ 64) :
     ∃ e, schnorrVerify sha256 msg pk sig = .error e := by
@@ -116,6 +117,7 @@ theorem verify_rejects_lengths (sha256 : Bytes → Bytes) (msg pk sig : Bytes)
       · exact ⟨_, by rw [if_pos h3]⟩
       · exfalso; rcases h with h | h | h <;> contradiction
 
+/-- … and out-of-range r or s, or an x-only key not on the curve, are rejected -/
 theorem verify_rejects (sha256 : Bytes → Bytes) (msg pk sig : Bytes)
     (h : ofBE (sig.take 32) ≥ p ∨ ofBE ((sig.drop 32).take 32) ≥ n ∨ liftX (ofBE pk) = none) :
     bip340Verify sha256 msg pk sig = false := by
